@@ -52,6 +52,7 @@ const (
 	tIntDiv // //
 	tMod
 	tAssign
+	tLexErr // the scanner failed here: no rule accepts it
 )
 
 type token struct {
@@ -79,7 +80,12 @@ func lex(src string) ([]token, *lexError) {
 		for i := 0; i < len(src); {
 			r, sz := utf8.DecodeRuneInString(src[i:])
 			if r == utf8.RuneError && sz <= 1 {
-				return nil, &lexError{i, "invalid UTF-8"}
+				// the valid prefix still yields tokens (a lazy scanner sees them before the bad byte)
+				toks, lerr := lex(src[:i])
+				if lerr != nil {
+					return toks, lerr
+				}
+				return toks[:len(toks)-1], &lexError{i, "invalid UTF-8"}
 			}
 			i += sz
 		}
@@ -131,7 +137,7 @@ func lex(src string) ([]token, *lexError) {
 				j++
 			}
 			if !closed {
-				return nil, &lexError{i, "unterminated " + string(c) + " token"}
+				return toks, &lexError{i, "unterminated " + string(c) + " token"}
 			}
 			switch c {
 			case '"':
@@ -270,7 +276,7 @@ func lex(src string) ([]token, *lexError) {
 			case '−':
 				emit(tMinus, i, i+sz)
 			default:
-				return nil, &lexError{i, "unexpected character"}
+				return toks, &lexError{i, "unexpected character"}
 			}
 			i += sz
 		}
